@@ -17,7 +17,7 @@ RULE = ('cases = PELs whose optional sections are user-data / extended-user-data
         '(JSON documents, text lines, random bytes, boundary lengths); non-trivial = at least one UD/ED section; distinct by bytes')
 FIX = {'x1111': ('echo',), 'x2222': ('raises', 'boom: "q" {x}'), 'x3333': ('none',), 'x4444': ('text', 'not json at all'),
        'x5555': ('text', '[1, 2, {"a": null}]'), 'x6666': ('text', '{"Section Version": "overwritten", "New": [1]}'), 'o1111': ('echo',), 'b2222': ('raises', 'err'),
-       'x8888': ('import_raises', 'cannot load: "f" {z}'), 'x5a5a': ('raises', ''), 'o8888': ('import_raises', 'no data file')}
+       'x8888': ('import_raises', 'cannot load: "f" {z}'), 'x5a5a': ('raises', ''), 'x6b6b': ('release_raises', 'done with the view'), 'x6c6c': ('release_none',), 'o8888': ('import_raises', 'no data file')}
 
 
 def sec_entries(doc):
@@ -43,7 +43,7 @@ def run(tier, seed):
                 for _ in range(rng.choice([1, 2, 3, 6])):
                     kind = rng.choice(['ud', 'ud', 'ed', 'other'])
                     sec = {'kind': kind, 'hdr': apel.gen_hdr(rng), 'payload': apel.gen_payload(rng)}
-                    sec['hdr']['comp'] = rng.choice([0x2000, 0x2000, 0x1111, 0x2222, 0x3333, 0x4444, 0x5555, 0x6666, 0x7777, 0x8888, 0x8888, 0x5A5A, rng.randrange(65536)])
+                    sec['hdr']['comp'] = rng.choice([0x2000, 0x2000, 0x1111, 0x2222, 0x3333, 0x4444, 0x5555, 0x6666, 0x7777, 0x8888, 0x8888, 0x5A5A, 0x6B6B, 0x6C6C, rng.randrange(65536)])
                     sec['hdr']['sub'] = rng.choice([1, 1, 3, 3, 2, 4, 0, 0x48, rng.randrange(256)])
                     if kind != 'other' and rng.random() < 0.45:
                         sec['hdr']['comp'] = 0x2000
@@ -114,7 +114,7 @@ def run(tier, seed):
                         ok = isinstance(dump, list) and all(isinstance(x, str) for x in dump) and bytes(hd.parse(dump)) == sec['payload']
                         if not ok:
                             ck.fail('a section without a decoder does not carry a lossless hex dump of its payload', rp, 'fallback_dump')
-                        if beh and beh[0] in ('raises', 'none', 'import_raises') and 'Error' not in members:
+                        if beh and beh[0] in ('raises', 'none', 'import_raises', 'release_raises', 'release_none') and 'Error' not in members:
                             ck.fail('parser failure is not noted in the section', rp, 'error_note')
                         ck.count('oracle fallback dump')
         finally:
